@@ -986,10 +986,44 @@ def ref_summary(facts, key):
 
 
 # ---------------------------------------------------------------------- term helpers
+def _minuend_subtrahend(d):
+    """(x, y) when d is `x - y` or the Some payload of `x.checked_sub(y)`"""
+    if d[0] == 'bin' and d[1] == 'Sub':
+        return d[2], d[3]
+    if d[0] == 'field' and d[1] == '0' and d[2][0] == 'variant' and d[2][1] == 'Some':
+        c = d[2][2]
+        if c[0] == 'call' and c[1] == 'core::num::<impl usize>::checked_sub' and len(c[2]) == 2:
+            return c[2][0], c[2][1]
+    return None
+
+
+def unref_pointee(t):
+    """`&*x` and `x` name the same slice"""
+    t = strip_sites(t)
+    if isinstance(t, tuple) and len(t) == 4 and t[0] == 'addr' and t[1][0] == 'pointee' and not t[2]:
+        return t[1][1]
+    return t
+
+
 def mk_slice(t, lo, hi):
+    if t[0] == 'addr' and t[2] and t[2][-1][0] == 'slice' and (lo is None or t[2][-1][2] is None):
+        # x[a..][..n] is x[a..a+n], x[a..b][c..] is x[a+c..b]: one spelling for a sub-slice of a sub-slice (the bounds checks of
+        # the two index calls stay separate panic sites for C13; only the denoted region is composed here)
+        lo0, hi0 = t[2][-1][1], t[2][-1][2]
+        nlo = lo0 if lo is None else (lo if lo0 is None else fold_bin('Add', lo0, lo))
+        nhi = hi0 if hi is None else (hi if lo0 is None else fold_bin('Add', lo0, hi))
+        return mk_slice(('addr', t[1], t[2][:-1], t[3]), nlo, nhi)
+    whole = unref_pointee(t)
     # x[a..x.len()] is x[a..]
-    if hi is not None and hi[0] == 'len' and strip_sites(hi[1]) == strip_sites(t):
+    if hi is not None and hi[0] == 'len' and unref_pointee(hi[1]) == whole:
         hi = None
+    # x[len-n .. (len-n)+n] is x[len-n ..]: (len-n)+n == x.len() whenever the subtraction did not fail
+    if hi is not None and hi[0] == 'bin' and hi[1] == 'Add':
+        for d, n in ((hi[2], hi[3]), (hi[3], hi[2])):
+            m = _minuend_subtrahend(d)
+            if m and m[0][0] == 'len' and unref_pointee(m[0][1]) == whole and strip_sites(m[1]) == strip_sites(n):
+                hi = None
+                break
     if t[0] == 'addr':
         return ('addr', t[1], t[2] + (('slice', lo, hi),), t[3])
     return ('addr', ('pointee', t), (('slice', lo, hi),), False)
@@ -1061,6 +1095,71 @@ def fold_bin(op, l, r):
         if 0 <= v < (1 << _INT_BITS[l[1]]):
             return ('const', l[1], v)
     return ('bin', op, l, r)
+
+
+_VARIANT_DISCR = {'core::option::Option::None': 0, 'core::option::Option::Some': 1,
+                  'core::result::Result::Ok': 0, 'core::result::Result::Err': 1}
+_BOOL_TO_INT = ('core::convert::Into::into', 'core::convert::From::from')
+
+
+def fold_const(t, ty):
+    """evaluate a term that is built only from integer/boolean constants, discriminants of `Option`/`Result` values whose
+    variant is known (an aggregate), comparisons, `u8::from(bool)` / `.into()` and bitwise or shift operators, to a constant of
+    the integer type `ty` (the type of the place that receives it).  Anything else — in particular anything that reads a
+    parameter — is returned unchanged: `u8::from(psk.is_some()) | u8::from(pk.is_some()) << 1` over known variants is a number,
+    `u8::from(!psk_bytes.is_empty())` is not."""
+    def ev(x):
+        if not isinstance(x, tuple) or not x:
+            return None
+        k = x[0]
+        if k == 'const' and len(x) == 3 and isinstance(x[2], (bool, int)):
+            return x[2]
+        if k == 'discr' and isinstance(x[1], tuple) and x[1][:2] == ('agg', 'adt') and x[1][2] in _VARIANT_DISCR:
+            return _VARIANT_DISCR[x[1][2]]
+        if k == 'un' and x[1] == 'Not':
+            v = ev(x[2])
+            return (not v) if isinstance(v, bool) else None
+        if k == 'cast' and x[1] == 'IntToInt' and x[2] in _INT_BITS:
+            v = ev(x[3])
+            if v is None or isinstance(v, bool) or v < 0:
+                return None
+            return v & ((1 << _INT_BITS[x[2]]) - 1)
+        if k == 'call' and x[1] in _BOOL_TO_INT and len(x[2]) == 1:
+            v = ev(x[2][0])
+            return int(v) if isinstance(v, bool) else None       # only bool -> integer is value-preserving for every target
+        if k == 'bin':
+            l, r = ev(x[2]), ev(x[3])
+            if l is None or r is None:
+                return None
+            op = x[1]
+            if op in ('Eq', 'Ne', 'Lt', 'Le', 'Gt', 'Ge'):
+                if isinstance(l, bool) != isinstance(r, bool):
+                    return None
+                return {'Eq': l == r, 'Ne': l != r, 'Lt': l < r, 'Le': l <= r, 'Gt': l > r, 'Ge': l >= r}[op]
+            if isinstance(l, bool) and isinstance(r, bool) and op in ('BitOr', 'BitAnd', 'BitXor'):
+                return {'BitOr': l or r, 'BitAnd': l and r, 'BitXor': l != r}[op]
+            if isinstance(l, bool) or isinstance(r, bool) or l < 0 or r < 0:
+                return None
+            if op == 'BitOr':
+                return l | r
+            if op == 'BitAnd':
+                return l & r
+            if op == 'BitXor':
+                return l ^ r
+            if op == 'Shl' and r < _INT_BITS.get(ty, 0):
+                v = l << r
+                return v if v < (1 << _INT_BITS[ty]) else None      # bits shifted out: leave it to the caller
+            if op == 'Shr' and r < _INT_BITS.get(ty, 0):
+                return l >> r
+            if op == 'Add' and l + r < (1 << _INT_BITS.get(ty, 0)):
+                return l + r
+        return None
+    if isinstance(t, tuple) and t and t[0] == 'const':
+        return t
+    v = ev(strip_sites(t))
+    if v is None or isinstance(v, bool) or ty not in _INT_BITS or not 0 <= v < (1 << _INT_BITS[ty]):
+        return t
+    return ('const', ty, v)
 
 
 def project(v, path):
